@@ -24,9 +24,17 @@ TRANSLATE = {
     "scad": [("Scad", "add_Scad"), ("Scad", "sub_Scad"), ("Scad", "external_circle_chamfer"),
              ("Scad", "external_cylinder_chamfer"), ("Scad", "polar_array")],
 }
+TRANSLATE["poly"] = [("Polyhedron", "into_scad"), ("Polyhedron", "into_scad_with_convexity"), ("Polyhedron", "translate"),
+                     ("Polyhedron", "apply_matrix"), ("Polyhedron", "rotate_x"), ("Polyhedron", "rotate_y"), ("Polyhedron", "rotate_z"),
+                     ("Polyhedron", "linear_extrude"), ("Polyhedron", "loft"), ("Polyhedron", "cylinder")]
 TRANSLATE["thread_parts"] = [(None, "threaded_rod"), (None, "tap"), (None, "hex_bolt"), (None, "hex_nut")]
-SOURCE = {"pipe": "pipe", "scad": "scad", "thread_parts": "metric_thread"}
-OUTNAME = {"pipe": "SrcPipe", "scad": "SrcScad", "thread_parts": "SrcThreadParts"}
+SOURCE = {"pipe": "pipe", "scad": "scad", "thread_parts": "metric_thread", "poly": "dim3"}
+OUTNAME = {"pipe": "SrcPipe", "scad": "SrcScad", "thread_parts": "SrcThreadParts", "poly": "SrcPolyhedron"}
+# the ear-clipping entry points stay hand-modelled (Model/Tri.lean): named directly in the mesh builders
+POLY_EXTERNS = {
+    (None, "triangulate2d"): {"lean": "Tri.triangulate2d", "params": [("vertices", "Pt2s", "ref")], "ret": "Indices", "selfmode": None, "partial": True},
+    (None, "triangulate2d_rev"): {"lean": "Tri.triangulate2dRev", "params": [("vertices", "Pt2s", "ref")], "ret": "Indices", "selfmode": None, "partial": True},
+}
 # functions the part builders call that stay hand-modelled: their model is named directly
 # (each is tied to the crate separately: the table by gen_thread.py and the C16 lookup run, the mesh
 # builders by the C04/C16 correspondence)
@@ -60,6 +68,10 @@ def generate_file(repo, only):
                                             "ret": G.norm_type(fn["ret"], None), "selfmode": None,
                                             "partial": fn["name"] in d2_partial}
     d = scad_items if only == "scad" else parse_file(open(f"{repo}/scad_tree/src/{SOURCE[only]}.rs").read())
+    if only == "poly":
+        ctx.sigs.update(POLY_EXTERNS)
+        ctx.structs["Polyhedron"] = {"fields": [("points", "Pt3s"), ("faces", "Faces")], "derives": []}
+        ctx.record_structs = {"Polyhedron"}
     if only == "thread_parts":
         ctx.sigs.update(EXTERNS)
         ctx.ops[("-", "Scad", "Scad")] = ("Src.Scad.sub_Scad", "Scad")
@@ -111,7 +123,10 @@ def generate_file(repo, only):
         ret = G.norm_type(fn["ret"], ty).replace("@OUT", ty or "")
         partial = nm in partial_names
         lean_name = f"Src.{ty}.{G.lname(nm)}" if ty else f"Src.{SOURCE[only]}.{G.lname(nm)}"
-        sig = {"lean": lean_name, "params": params, "ret": ret, "selfmode": None, "partial": partial}
+        selfmode = next((m_ for n_, _, m_ in params if n_ == "self"), None)
+        if selfmode == "mutref" and ret in ("()", ty):
+            ret = ty
+        sig = {"lean": lean_name, "params": params, "ret": ret, "selfmode": selfmode, "partial": partial}
         fn["_sig"] = sig
         if tname in ("Add", "Sub"):
             ctx.ops[({"Add": "+", "Sub": "-"}[tname], ty, ty)] = (sig["lean"], ret)
@@ -119,7 +134,8 @@ def generate_file(repo, only):
             ctx.sigs[(ty, fn["name"])] = sig
     out = [f"/- GENERATED by translator/gen_src_{only}.py (treesrc.py) from scad_tree/src/{only}.rs — do not edit. -/",
            "import ScadVerif.Gen.MathSrc", "import ScadVerif.Gen.SrcDim2", "import ScadVerif.Model.Scad"] + (
-           ["import ScadVerif.Gen.SrcScad", "import ScadVerif.Gen.SrcMetricThread", "import ScadVerif.Model.Thread"] if only == "thread_parts" else []) + [
+           ["import ScadVerif.Gen.SrcScad", "import ScadVerif.Gen.SrcMetricThread", "import ScadVerif.Model.Thread"] if only == "thread_parts" else []) + (
+           ["import ScadVerif.Model.Dim3"] if only == "poly" else []) + [
            "set_option linter.unusedVariables false",
            "namespace ScadVerif",
            "variable {α : Type} [Add α] [Sub α] [Mul α] [Div α] [Neg α] [OfNat α 0] [OfNat α 1]",
@@ -136,7 +152,7 @@ def generate_file(repo, only):
             for pn, t, m in sig["params"]:
                 env[pn] = t
                 binders.append(f"({G.lname(pn)} : {G.lean_type(t)})")
-            body, _ = tr.block(fn["body"], env, "value", top=True)
+            body, _ = tr.block(fn["body"], env, "self" if sig["selfmode"] == "mutref" else "value", top=True)
             rt = G.lean_type(sig["ret"])
             if sig["partial"]:
                 rt = f"Option ({rt})"
